@@ -5,6 +5,7 @@ package c17
 // hands out rewards), funded EOAs, persistent forwarder contracts, proposals.
 
 import (
+	"bytes"
 	"fmt"
 	"math"
 	"math/big"
@@ -43,16 +44,17 @@ type proposal struct {
 }
 
 type world struct {
-	r    *core.Run
-	hid  string
-	rng  *rand.Rand
-	n    *core.Node
-	m    *evmModel
-	now  time.Time
-	eoas []*core.Account
-	dep  *core.Account // deployer of harness contracts
-	fund *core.Account // funds contracts / pays "fees"
-	vals []string      // operator addresses
+	proposer []byte // consensus address of the block proposer (follows the validator set)
+	r        *core.Run
+	hid      string
+	rng      *rand.Rand
+	n        *core.Node
+	m        *evmModel
+	now      time.Time
+	eoas     []*core.Account
+	dep      *core.Account // deployer of harness contracts
+	fund     *core.Account // funds contracts / pays "fees"
+	vals     []string      // operator addresses
 
 	staking, gov *contract
 	stEntries    []entry
@@ -204,11 +206,30 @@ func (w *world) begin(ev []abci.Evidence) {
 			votes = append(votes, abci.VoteInfo{Validator: abci.Validator{Address: v.Address, Power: v.VotingPower}, SignedLastBlock: true})
 		}
 	}
+	// the proposer comes from the set in force: a validator that lost all its delegations leaves the set (and is removed
+	// from the store once unbonded), a real chain would not let it propose any more
+	if w.proposer == nil {
+		w.proposer = n.Vals.Proposer.Address
+	}
+	if n.App.LastBlockHeight() >= 1 {
+		last := n.App.StakingKeeper.GetLastValidators(rctx)
+		still := false
+		for _, v := range last {
+			if ca, err := v.GetConsAddr(); err == nil && bytes.Equal(ca.Bytes(), w.proposer) {
+				still = true
+			}
+		}
+		if !still && len(last) > 0 {
+			ca, _ := last[0].GetConsAddr()
+			w.proposer = ca.Bytes()
+			w.r.Count("proposer_left_the_validator_set_and_was_replaced", 1)
+		}
+	}
 	h := n.App.LastBlockHeight() + 1
 	n.Header = tmproto.Header{
 		Version: tmprotoversion.Consensus{Block: version.BlockProtocol, App: 2},
 		ChainID: n.ChainID, Height: h, Time: w.now.UTC(), AppHash: n.App.LastCommitID().Hash,
-		ValidatorsHash: n.Vals.Hash(), NextValidatorsHash: n.Vals.Hash(), ProposerAddress: n.Vals.Proposer.Address,
+		ValidatorsHash: n.Vals.Hash(), NextValidatorsHash: n.Vals.Hash(), ProposerAddress: w.proposer,
 	}
 	n.App.BeginBlock(abci.RequestBeginBlock{Header: n.Header, LastCommitInfo: abci.LastCommitInfo{Votes: votes}, ByzantineValidators: ev})
 	n.InBlock = true
